@@ -101,6 +101,7 @@ func (e *bexpr) String(atoms []retAtom) string {
 }
 
 type retainExtractor struct {
+	fd      *ast.FuncDecl // the function the loop sits in (closures defined in it can be predicates)
 	pk      *packages.Package
 	info    *types.Info
 	loopVar types.Object
@@ -112,6 +113,12 @@ type retainExtractor struct {
 
 // FindRetainLoops extracts all rebuild loops of a function declaration.
 func FindRetainLoops(p *Prog, pk *packages.Package, fd *ast.FuncDecl, fnName string) []retainLoop {
+	return findRetainLoopsBound(p, pk, fd, fnName, nil)
+}
+
+// findRetainLoopsBound: extraBind maps parameters of fd (function-typed ones in particular) to the
+// expressions a call site passes for them.
+func findRetainLoopsBound(p *Prog, pk *packages.Package, fd *ast.FuncDecl, fnName string, extraBind map[types.Object]ast.Expr) []retainLoop {
 	var res []retainLoop
 	if fd.Body == nil {
 		return nil
@@ -212,7 +219,10 @@ func FindRetainLoops(p *Prog, pk *packages.Package, fd *ast.FuncDecl, fnName str
 			if !isField {
 				return true
 			}
-			ex := &retainExtractor{pk: pk, info: info, loopVar: loopVar, alias: map[types.Object]ast.Expr{}}
+			ex := &retainExtractor{fd: fd, pk: pk, info: info, loopVar: loopVar, alias: map[types.Object]ast.Expr{}}
+			for o, v := range extraBind {
+				ex.alias[o] = v
+			}
 			ex.collectAliases(rs.Body)
 			keep, shape := ex.keepCondition(rs.Body, stack)
 			rl := retainLoop{Fn: fnName, Field: field, Keep: keep, Atoms: ex.atoms, Pos: rs.Pos(), Shape: shape, Source: types.ExprString(rs.X)}
@@ -358,6 +368,58 @@ func (ex *retainExtractor) cond(e ast.Expr) *bexpr {
 		if o := calleeObj(ex.info, x); o != nil && o.Pkg() != nil && len(x.Args) == 2 &&
 			((o.Pkg().Path() == "reflect" && o.Name() == "DeepEqual") || (o.Pkg().Path() == "slices" && o.Name() == "Equal")) {
 			return ex.atom(x.Args[0], x.Args[1], false, types.ExprString(e))
+		}
+		// a predicate of the repository (function, method, closure, function-typed parameter bound to one) whose
+		// body is a single "return <condition>": evaluated in place, parameters standing for the arguments
+		if params, recvObj, recvExpr, ret := ex.resolvePredicate(x.Fun, 0); ret != nil && ex.depth < 4 {
+			saved := map[types.Object]ast.Expr{}
+			had := map[types.Object]bool{}
+			bind := func(o types.Object, v ast.Expr) {
+				if o == nil {
+					return
+				}
+				if old, ok := ex.alias[o]; ok {
+					saved[o], had[o] = old, true
+				} else {
+					had[o] = false
+				}
+				ex.alias[o] = v
+			}
+			i := 0
+			okBind := true
+			if params != nil {
+				for _, f := range params.List {
+					for _, nm := range f.Names {
+						if i >= len(x.Args) {
+							okBind = false
+							break
+						}
+						if id, isId := ast.Unparen(x.Args[i]).(*ast.Ident); !isId || ex.info.Uses[id] != ex.info.Defs[nm] {
+							bind(ex.info.Defs[nm], x.Args[i])
+						}
+						i++
+					}
+				}
+			}
+			if recvObj != nil && recvExpr != nil {
+				bind(recvObj, recvExpr)
+			}
+			var r *bexpr
+			if okBind && i == len(x.Args) {
+				ex.depth++
+				r = ex.cond(ret)
+				ex.depth--
+			}
+			for o, h := range had {
+				if h {
+					ex.alias[o] = saved[o]
+				} else {
+					delete(ex.alias, o)
+				}
+			}
+			if r != nil {
+				return r
+			}
 		}
 	}
 	ex.bad = append(ex.bad, "unrecognised condition "+types.ExprString(e))
@@ -619,7 +681,29 @@ func applyRetain(p *Prog, r *Report, rule string, short, recv, method string, sp
 					if !ok || pk.TypesInfo.Defs[hd.Name] != o {
 						continue
 					}
-					for _, hl := range FindRetainLoops(p, pk, hd, short+"."+hd.Name.Name) {
+					// parameters of the helper stand for the arguments; a closure variable of the caller for its literal
+					bind := map[types.Object]ast.Expr{}
+					callerEx := &retainExtractor{fd: fd, pk: pk, info: pk.TypesInfo, alias: map[types.Object]ast.Expr{}}
+					ai := 0
+					for _, f := range hd.Type.Params.List {
+						for _, nm := range f.Names {
+							if ai < len(call.Args) {
+								arg := call.Args[ai]
+								if id, isId := ast.Unparen(arg).(*ast.Ident); isId {
+									if fl := callerEx.funcLitOf(pk.TypesInfo.Uses[id]); fl != nil {
+										arg = fl
+									}
+								}
+								if tv := pk.TypesInfo.TypeOf(arg); tv != nil {
+									if _, isFn := tv.Underlying().(*types.Signature); isFn {
+										bind[pk.TypesInfo.Defs[nm]] = arg
+									}
+								}
+							}
+							ai++
+						}
+					}
+					for _, hl := range findRetainLoopsBound(p, pk, hd, short+"."+hd.Name.Name, bind) {
 						if hl.Field == "$return" {
 							hl.Field = spec.Field
 							loops = append(loops, hl)
@@ -698,4 +782,118 @@ func breaksLoop(body *ast.BlockStmt) bool {
 	}
 	walk(body, false)
 	return found
+}
+
+// resolvePredicate finds the declaration behind a called expression when it is a
+// repository predicate with a body of the form "return <expr>": its parameters,
+// the receiver object and expression (methods), and the returned expression.
+func (ex *retainExtractor) resolvePredicate(fun ast.Expr, depth int) (params *ast.FieldList, recvObj types.Object, recvExpr ast.Expr, ret ast.Expr) {
+	if depth > 3 {
+		return nil, nil, nil, nil
+	}
+	single := func(body *ast.BlockStmt) ast.Expr {
+		// "x := e" definitions (assigned once, kept as aliases) followed by one "return <expr>"
+		if body == nil || len(body.List) == 0 {
+			return nil
+		}
+		for _, st := range body.List[:len(body.List)-1] {
+			as, ok := st.(*ast.AssignStmt)
+			if !ok || as.Tok != token.DEFINE || len(as.Lhs) != 1 || len(as.Rhs) != 1 {
+				return nil
+			}
+			id, ok := as.Lhs[0].(*ast.Ident)
+			if !ok || ex.info.Defs[id] == nil {
+				return nil
+			}
+			ex.alias[ex.info.Defs[id]] = as.Rhs[0] // local of the predicate: cannot clash with anything of the caller
+		}
+		rs, ok := body.List[len(body.List)-1].(*ast.ReturnStmt)
+		if !ok || len(rs.Results) != 1 {
+			return nil
+		}
+		return rs.Results[0]
+	}
+	declOf := func(o types.Object) *ast.FuncDecl {
+		if o == nil || o.Pkg() == nil || ex.pk.Types == nil || o.Pkg() != ex.pk.Types {
+			return nil
+		}
+		for _, file := range ex.pk.Syntax {
+			for _, d := range file.Decls {
+				if fd, ok := d.(*ast.FuncDecl); ok && ex.info.Defs[fd.Name] == o {
+					return fd
+				}
+			}
+		}
+		return nil
+	}
+	switch x := ast.Unparen(fun).(type) {
+	case *ast.FuncLit:
+		return x.Type.Params, nil, nil, single(x.Body)
+	case *ast.Ident:
+		o := ex.info.Uses[x]
+		if o == nil {
+			return nil, nil, nil, nil
+		}
+		if def, ok := ex.alias[o]; ok {
+			return ex.resolvePredicate(def, depth+1)
+		}
+		if fl := ex.funcLitOf(o); fl != nil {
+			return fl.Type.Params, nil, nil, single(fl.Body)
+		}
+		if _, isFn := o.(*types.Func); isFn {
+			if fd := declOf(o); fd != nil {
+				return fd.Type.Params, nil, nil, single(fd.Body)
+			}
+		}
+	case *ast.SelectorExpr:
+		if sel := ex.info.Selections[x]; sel != nil {
+			if m, isFn := sel.Obj().(*types.Func); isFn {
+				if fd := declOf(m); fd != nil && fd.Recv != nil && len(fd.Recv.List) == 1 {
+					var ro types.Object
+					if len(fd.Recv.List[0].Names) == 1 {
+						ro = ex.info.Defs[fd.Recv.List[0].Names[0]]
+					}
+					return fd.Type.Params, ro, x.X, single(fd.Body)
+				}
+			}
+		}
+	}
+	return nil, nil, nil, nil
+}
+
+// funcLitOf: the function literal a local variable of the enclosing function is defined as (assigned once).
+func (ex *retainExtractor) funcLitOf(o types.Object) *ast.FuncLit {
+	if o == nil || ex.fd == nil || ex.fd.Body == nil {
+		return nil
+	}
+	var lit *ast.FuncLit
+	n := 0
+	ast.Inspect(ex.fd.Body, func(nd ast.Node) bool {
+		as, ok := nd.(*ast.AssignStmt)
+		if !ok || len(as.Lhs) != len(as.Rhs) {
+			return true
+		}
+		for i, lhs := range as.Lhs {
+			id, ok := lhs.(*ast.Ident)
+			if !ok {
+				continue
+			}
+			d := ex.info.Defs[id]
+			if d == nil {
+				d = ex.info.Uses[id]
+			}
+			if d != o {
+				continue
+			}
+			n++
+			if fl, isLit := ast.Unparen(as.Rhs[i]).(*ast.FuncLit); isLit {
+				lit = fl
+			}
+		}
+		return true
+	})
+	if n != 1 {
+		return nil
+	}
+	return lit
 }
